@@ -34,7 +34,8 @@ ASSUMPTIONS = ['all values of f finite (no NaN) except in the dedicated NaN-bran
                '_get_arg_min falls back to row 0 for every column (outside the property\'s domain)']
 NOT_DECIDED = ['"within the error estimate" clause for the complex-step methods under rounding (the term identity is proved '
                'for them as well)']
-BOUNDED = ['array shapes with at most 6 elements are executed (the argument is uniform in the shape)']
+BOUNDED = ['complex-step-concrete: 48 concrete (method, n, f, array) cases executed in floating point with the real numpy (arrays with exact roots of a power base next to ordinary elements) -- not proved',
+           'array shapes with at most 6 elements are executed (the argument is uniform in the shape)']
 QUANTIFIED = 'all elements of x, all values of the uninterpreted element-wise g and of the nominal-step function: universally quantified'
 
 CFGS_Q = [('central', 1, 2), ('central', 2, 2), ('forward', 1, 2), ('backward', 2, 1), ('complex', 1, 2), ('central', 3, 4)]
@@ -53,6 +54,8 @@ def enumerated(tier):
 def groups(tier):
     out = [('deriv[%s,n=%d,order=%d]' % c, ('deriv',) + c) for c in cfgs(tier)]
     out += [('best-estimate[%d,%d]' % kn, ('best',) + kn) for kn in [(4, 2), (3, 3), (6, 2), (1, 2), (2, 1)]]
+    out.append(('zero-order', ('zero',)))
+    out.append(('complex-step-concrete', ('cconc',)))
     return out
 
 
@@ -162,7 +165,56 @@ def run_best(K, N):
     return {}
 
 
+def run_zero():
+    """n == 0 (f itself): same shape, element-wise, args and kwds forwarded"""
+    with fd_env(names=ALL, symkey_cache=False, exact_factorial=False) as m:
+        core, mc = m['core'], m['mc']
+        for method in ('central', 'forward', 'complex', 'multicomplex'):
+            for shape in [(), (3,), (2, 2)]:
+                CTX.reset()
+                nel = int(np.prod(shape)) if shape else 1
+                flat = [real('x%d' % k) for k in range(nel)]
+                if shape:
+                    xa = np.empty(shape, dtype=object); xa.ravel()[:] = flat; xa = xa.view(SymArr)
+                else:
+                    xa = flat[0]
+                tg = 'n=0,%s,shape%s:' % (method, shape)
+                pa, fA, _ = run_once(core, mc, xa, method, 0, 2, full=False, args=('ARG', 3), kwds=dict(key='K', other=2.5))
+                ok = len(pa) == 1 and pa[0].exc is None
+                solve.fact(tg + 'single-path-no-exception', ok, note=str([repr(p.exc)[:150] for p in pa if p.exc][:1]))
+                if not ok:
+                    continue
+                vA = pa[0].value
+                solve.fact(tg + 'K:output-shape==input-shape', np.shape(vA) == shape, note=str(np.shape(vA)))
+                solve.fact(tg + 'A:args-and-kwds-reach-f-unchanged-on-every-evaluation',
+                           len(fA.calls) > 0 and all(a == ('ARG', 3) and k == dict(key='K', other=2.5) for a, k in fA.calls),
+                           note=str(fA.calls[:1])[:150])
+                if np.shape(vA) != shape:
+                    continue
+                for idx in (np.ndindex(shape) if shape else [()]):
+                    own = str(lift(xa[idx] if shape else xa).t)
+                    fv = free_syms(*all_parts(asobj(vA)[idx]))
+                    foreign = sorted(s_ for s_ in fv if s_.startswith('x') and s_ != own)
+                    solve.fact(tg + 'O:position%s-depends-only-on-its-own-element' % (idx,), not foreign and own in fv, note=str(foreign[:4]))
+    return {}
+
+
+from ndvc.concrete import concrete_complex_step_cases
+
+
+def run_cconc():
+    import numdifftools as nd
+    cnt, bad = concrete_complex_step_cases(nd)
+    solve.fact('complex-step-methods:element-in-array==element-alone-within-the-error-estimates[%d concrete arrays]' % cnt, not bad,
+               kind='bounded', note=str(bad[:1])[:400])
+    return {}
+
+
 def run_group(args):
+    if args[0] == 'cconc':
+        return run_cconc()
+    if args[0] == 'zero':
+        return run_zero()
     if args[0] == 'deriv':
         return run_deriv(args[1], args[2], args[3])
     return run_best(args[1], args[2])
@@ -170,6 +222,8 @@ def run_group(args):
 
 def replay_case(ob):
     import re
+    if ob['name'].startswith('complex-step-concrete/'):
+        return dict(kind='C08.cconc')
     mm = re.search(r'deriv\[(\w+),n=(\d+),order=(\d+)\]', ob['name'])
     if mm:
         return dict(kind='C08.elementwise', method=mm.group(1), n=int(mm.group(2)), order=int(mm.group(3)))
